@@ -28,7 +28,7 @@ FAIL_PATTERNS = [
   'possible arithmetic underflow/overflow', 'possible division by zero', 'possible bit shift underflow/overflow',
   'decreases not satisfied', 'could not prove termination', 'unreachable code may be reached',
   'possible arithmetic overflow', 'possible arithmetic underflow', 'failed this postcondition',
-  'loop invariant not preserved', 'loop invariant not satisfied', 'cannot show invariant holds', 'assert_by_compute', 'index out of bounds',
+  'loop invariant not preserved', 'loop invariant not satisfied', 'index in bounds', 'precondition not met', 'cannot show invariant holds', 'assert_by_compute', 'index out of bounds',
   'may panic', 'constructed value may fail to meet its declared type invariant',
 ]
 INCONCLUSIVE_PATTERNS = ['rlimit', 'resource limit', 'timed out', 'timeout', 'solver canceled', 'incomplete']
